@@ -58,6 +58,10 @@ print(y)
     },
 }
 
+HARVEST_PROGRAM = dict(PROGRAMS["classes"])
+HARVEST_PROGRAM.update(PROGRAMS["imports"])
+HARVEST_PROGRAM["other.py"] = "from m import f\nimport main\nu = f(5)\n"
+
 # save-name -> get-name where the pairing is not save_X/get_X or save_X/convert_X
 GET_FOR = {
     "save_class_id_to_members": "convert_class_id_to_members",
@@ -289,6 +293,7 @@ BFS_FAMILIES = [
     # (save api, get api)
     ("save_unit_gir", "get_unit_gir"),
     ("save_unit_scope_hierarchy", "get_unit_scope_hierarchy"),
+    ("save_unit_export_symbols", "get_unit_export_symbols"),
     ("save_method_cfg", "get_method_cfg"),
     ("save_symbol_bit_vector_p2", "get_symbol_bit_vector_p2"),
     ("save_stmt_status_p2", "get_stmt_status_p2"),
@@ -320,7 +325,7 @@ def harvest():
             originals[name] = getattr(L.Loader, name)
             setattr(L.Loader, name, wrap(name, originals[name]))
     try:
-        r = runner.run_lian(PROGRAMS["classes"], "python", "semantic", extra_args=["--enable-p2"])
+        r = runner.run_lian(HARVEST_PROGRAM, "python", "semantic", extra_args=["--enable-p2"])
     finally:
         for name, fn in originals.items():
             setattr(L.Loader, name, fn)
@@ -487,8 +492,38 @@ def lstate_canon(st):
             lru_keys(sub.bundle_cache), hash(repr(cached)))
 
 
+def check_trivial_histories(rep):
+    """Independent of the differential oracle: in the trivial history save(i, v); get(i) the read must not be empty
+    for non-empty v (all four id/content combinations), and for content saved under its own id the read must carry
+    the same data as v itself wherever the two representations are comparable."""
+    n = 0
+    comparable = 0
+    for fam, f in _H["families"].items():
+        for idx in (0, 1):
+            for tag in ("A", "B"):
+                ref = reference(fam, idx, tag)
+                n += 1
+                if is_empty(ref) or (isinstance(ref, tuple) and ref and ref[0] in ("EXC", "QUIT")):
+                    rep.violation(f"{fam}:trivial-read-empty", f"save(#{idx},{tag}); get(#{idx}) on a fresh loader returns {str(ref)[:120]} "
+                                  f"for non-empty content", {"family": fam, "config": [20, 2, 0], "history": [["save", idx, tag], ["get", idx]]},
+                                  size=2, ident=f"save(#{idx},{tag}) ; get(#{idx})")
+                    continue
+                own = (idx, tag) in ((0, "A"), (1, "B"))
+                if own:
+                    direct = loose(C.canon(f["content"][tag]))
+                    if type(direct) is type(ref) and isinstance(direct, tuple) and direct and ref and direct[0] == ref[0] \
+                            and direct[0] in ("graph", "dict", "rec", "gobj"):
+                        comparable += 1
+                        if not same(direct, ref):
+                            rep.violation(f"{fam}:trivial-read-differs", f"save(#{idx},{tag}); get(#{idx}) returns content different from "
+                                          f"what was saved: {C.diff(direct, ref)[:2]}", {"family": fam, "config": [20, 2, 0],
+                                          "history": [["save", idx, tag], ["get", idx]]}, size=2, ident=diff_signature(direct, ref))
+    return n, comparable
+
+
 def bfs_part(depth, configs, rep):
     fams = _H["families"]
+    _H["trivial"] = check_trivial_histories(rep)
     mut_ops = [("save", i, t) for i in (0, 1) for t in ("A", "B")] + [("export",), ("restore",)]
     q_ops = [("get", 0), ("get", 1)]
 
@@ -536,6 +571,45 @@ def bfs_part(depth, configs, rep):
     roots = [(("cfg", fam) + cfg,) for fam in fams for cfg in configs]
     res = explore.pbfs("c15", build, ops, step, canon, depth + 1, on_violation, sample_every=503, roots=roots,
                        outcome=lambda st, op: op[0])
+    # start from non-initial states too: loaders that already went through supersede / export / restore cycles
+    prefixes = [
+        (("save", 0, "A"), ("export",), ("save", 0, "B"), ("export",), ("restore",)),      # early bundle fully superseded, restored
+        (("save", 0, "A"), ("save", 1, "B"), ("export",), ("restore",)),                   # one bundle with two items, restored
+        (("save", 0, "A"), ("export",), ("save", 1, "A"), ("export",)),                    # two bundles alive
+        (("save", 0, "A"), ("export",), ("save", 0, "B"), ("export",), ("save", 1, "B"), ("export",), ("restore",)),
+    ]
+    d2 = max(2, depth - 1)
+
+    def ops2(st, hist):
+        lstate_cleanup(st)
+        base = len(hist) - 1 - plen[hist[0]][tuple(hist[1:1 + 0])] if False else None
+        done = len(hist) - 1 - root_len[hist[:root_cut(hist)]]
+        if done < d2:
+            return mut_ops + q_ops + [("probe_restore",)]
+        return q_ops + [("probe_restore",)]
+
+    root_len = {}
+
+    def root_cut(hist):
+        for n in sorted({len(p) for p in prefixes}, reverse=True):
+            if tuple(hist[1:1 + n]) in {p for p in prefixes if len(p) == n}:
+                return 1 + n
+        return 1
+    roots2 = []
+    for fam in fams:
+        for cfg in configs:
+            for pre in prefixes:
+                r = (("cfg", fam) + cfg,) + pre
+                roots2.append(r)
+                root_len[r] = len(pre)
+    res2 = explore.pbfs("c15b", build, ops2, step, canon, d2 + 1, on_violation, sample_every=701, roots=roots2,
+                        outcome=lambda st, op: op[0])
+    res.states += res2.states
+    res.transitions += res2.transitions
+    for k, v in res2.outcomes.items():
+        res.outcomes[k] += v
+    res.samples += res2.samples[:2]
+    res.nonintial_roots = len(roots2)
     return res
 
 
@@ -584,7 +658,7 @@ def main():
         "traces_validated_against_impl": res.transitions + trace["items"],
         "samples": res.samples[:5] or [["save(#0,A)", "get(#0)"]],
         "exhaustive": True,
-        "bfs": {"families": sorted(_H["families"]), "configs(item_cap,bundle_cap,max_rows)": configs,
+        "bfs": {"families": sorted(_H["families"]), "trivial_histories_checked(total,compared_with_saved_object)": list(_H.get("trivial", ())), "configs(item_cap,bundle_cap,max_rows)": configs,
                 "history_depth": depth + 1, "transitions_by_op": dict(res.outcomes)},
         "recorded_real_histories": {"runs": trace["runs"], "items_compared": trace["items"],
                                     "families_seen_max": max(trace["families"] or [0]),
